@@ -46,7 +46,7 @@ RULE = ("messages of the systematic schema (every scalar kind x {plain, optional
         "by wiregen.reencode (packed<->unpacked, chunk split, mixed, stable permutation, varint padding, duplicated singular scalars, interleaved unknowns); "
         "plus the hand-written regression corpus corpus/C02.json.  non-trivial = at least one record; distinct = distinct (class, byte string)")
 
-N_REENC_QUICK, N_REENC_THOROUGH = 5, 12
+N_REENC_QUICK, N_REENC_THOROUGH = 4, 10
 
 
 def safe(f, *a, **k):
@@ -91,7 +91,7 @@ class Case:
 
 def run(ctx):
     rng = ctx.rng
-    nrand = 6 if not ctx.thorough else 40
+    nrand = 6 if not ctx.thorough else 25
     schemas = [msggen.matrix_schema()] + [msggen.random_schema(rng) for _ in range(nrand)]
     prelude = "\n".join(f"Definition sc{i} : schema := {s.coq()}." for i, s in enumerate(schemas))
     refs = []
@@ -171,7 +171,7 @@ def run(ctx):
             add_decode_case(0, names[e["class"]], bytes.fromhex(e["hex"]), "corpus:" + e["what"], expect=e["expect"])
 
     # ------------------------------------------------------------------ generated messages
-    n_per = int(os.environ.get("C02_NPER", 0)) or (40 if not ctx.thorough else 220)
+    n_per = int(os.environ.get("C02_NPER", 0)) or (26 if not ctx.thorough else 60)
     for si, s in enumerate(schemas):
         if refs[si] is None:
             continue
@@ -244,28 +244,36 @@ def run(ctx):
     t_gen = time.time()
     ctx.notes.append(f"timing: generation + implementation/reference runs {t_gen - ctx.t0:.1f}s for {len(cases)} decode cases")
     # ------------------------------------------------------------------ Coq: sem / supported / model parse / abs on every decode case
-    pairs, sup_pairs = [], []
+    pairs = []
     for c in cases:
         sc, cls, bs = f"sc{c.si}", f"{msggen.NBUILTIN + c.ci}%nat", coq_bytes(c.bs)
         refcv = R.tree_cv(c.ref_exact)
         impl = f"(cv_of_obj {c.lit_after})" if c.lit_after is not None else ce("EOther")
         pairs.append((f"(let bs := {bs} in let s := cv_of_aval_opt (sem_bytes {sc} {cls} bs) in let r := parse {sc} {cls} bs in "
-                      f"CL [s; (if supported_bytes {sc} {cls} bs then cv_abs_res {sc} r else s); cv_obj_res r])",
-                      cl([refcv, refcv, impl])))
-        sup_pairs.append((f"cbool (supported_bytes {sc} {cls} {bs})", cz(1 if c.expect == "supported" else 0)))
+                      f"let sup := supported_bytes {sc} {cls} bs in "
+                      f"CL [s; (if sup then cv_abs_res {sc} r else s); cv_obj_res r; cbool sup])",
+                      cl([refcv, refcv, impl, cz(1 if c.expect == "supported" else 0)])))
     ctx.cov["evaluations"] += len(pairs)
-    # three separate comparisons so that a failure names its tie
+
+    # the four components are compared separately on a mismatch so that a failure names its tie
     def split(i):
         m, e = pairs[i]
-        return [(f"(match {m} with CL [a; b; c] => {sel} | x => x end)", f"(match {e} with CL [a; b; c] => {sel} | x => x end)")
-                for sel in ("a", "b", "c")]
-    bad = lib.coq_compare(ctx, "c02dec", IMPORTS, pairs, chunk=60, prelude=prelude)
+        return [(f"(match {m} with CL [a; b; c; d] => {sel} | x => x end)", f"(match {e} with CL [a; b; c; d] => {sel} | x => x end)")
+                for sel in ("a", "b", "c", "d")]
+    # the schema-level hypotheses of the theorems hold on every generated schema
+    sch_pairs = [(f"cbool (wf_schema sc{i} && builtins_std sc{i})", cz(1)) for i in range(len(schemas))]
+    for i in lib.coq_compare(ctx, "c02schemas", IMPORTS, sch_pairs, chunk=8, prelude=prelude):
+        ctx.fail("corr", "wf_schema / builtins_std is false on a generated schema: the theorems' hypotheses do not cover what the generator builds",
+                 input={"schema": schemas[i].describe()}, theorem_or_correspondence="wf_schema, builtins_std")
+    ctx.count("schemas_wf_and_std", len(schemas))
+    bad = lib.coq_compare(ctx, "c02dec", IMPORTS, pairs, chunk=70, prelude=prelude)
     ctx.cov["disagreements_checked"] += len(pairs)
     ctx.notes.append(f"timing: Coq evaluation of the decode cases {time.time() - t_gen:.1f}s")
+    n_unsupported_generated = 0
     for i in bad[:12]:
         c = cases[i]
         inp = dict(describe(c.si, c.ci), bytes=c.bs.hex(), encoding=c.label)
-        which = lib.coq_compare(ctx, f"c02dec_split{i}", IMPORTS, split(i), chunk=3, prelude=prelude)
+        which = lib.coq_compare(ctx, f"c02dec_split{i}", IMPORTS, split(i), chunk=4, prelude=prelude)
         if 0 in which:
             ctx.fail("spec", f"T3: Spec/Wire.sem disagrees with the reference on these bytes ({c.label})", input=inp,
                      expected_reference=pairs[i][1][:3000], model_expr=pairs[i][0][:3000],
@@ -277,23 +285,15 @@ def run(ctx):
             ctx.fail("corr", f"abs (parse bs) differs from sem bs on a supported input ({c.label}): C02_decode_refines does not describe this tree",
                      input=inp, expected_reference=pairs[i][1][:3000],
                      theorem_or_correspondence="C02_decode_refines (abs_obj . parse = sem under supported)")
-    # the schema-level hypotheses of the theorems hold on every generated schema
-    sch_pairs = [(f"cbool (wf_schema sc{i} && builtins_std sc{i})", cz(1)) for i in range(len(schemas))]
-    for i in lib.coq_compare(ctx, "c02schemas", IMPORTS, sch_pairs, chunk=8, prelude=prelude):
-        ctx.fail("corr", "wf_schema / builtins_std is false on a generated schema: the theorems' hypotheses do not cover what the generator builds",
-                 input={"schema": schemas[i].describe()}, theorem_or_correspondence="wf_schema, builtins_std")
-    ctx.count("schemas_wf_and_std", len(schemas))
-    bad_sup = lib.coq_compare(ctx, "c02sup", IMPORTS, sup_pairs, chunk=150, prelude=prelude)
-    for i in bad_sup[:12]:
-        c = cases[i]
-        inp = dict(describe(c.si, c.ci), bytes=c.bs.hex(), encoding=c.label)
-        if c.expect == "supported":
-            ctx.fail("corr", f"`supported` is false on a generated legal alternative encoding ({c.label}): the theorem's side condition excludes "
-                     "an input of the property's own list", input=inp, theorem_or_correspondence="supported (Proofs/C02Abs.v)")
-        else:
-            ctx.fail("corr", f"`supported` is true on a scope-limit witness ({c.label})", input=inp,
-                     theorem_or_correspondence="supported (Proofs/C02Abs.v)")
-    ctx.count("supported_true", sum(1 for c in cases if c.expect == "supported") - sum(1 for i in bad_sup if cases[i].expect == "supported"))
+        if 3 in which:
+            if c.expect == "supported":
+                n_unsupported_generated += 1
+                ctx.fail("corr", f"`supported` is false on a generated legal alternative encoding ({c.label}): the theorem's side condition excludes "
+                         "an input of the property's own list", input=inp, theorem_or_correspondence="supported (Proofs/C02Abs.v)")
+            else:
+                ctx.fail("corr", f"`supported` is true on a scope-limit witness ({c.label})", input=inp,
+                         theorem_or_correspondence="supported (Proofs/C02Abs.v)")
+    ctx.count("supported_true", sum(1 for c in cases if c.expect == "supported") - n_unsupported_generated)
     ctx.count("scope_limit_witnesses", sum(1 for c in cases if c.expect == "scope"))
     # scope-limit witnesses: does betterproto really differ there? (recorded, not a failure either way)
     for c in cases:
